@@ -11,12 +11,36 @@ import (
 	"regexp"
 	"runtime"
 	"strings"
+	"sync"
+	"sync/atomic"
 	"time"
 
 	"verif/sim/proto"
 )
 
 // death describes a child that died between a BEGIN and its END.
+var pinCounter atomic.Uint64
+
+// quotaScript makes /sys/fs/cgroup, in a private mount namespace, look like that of a container limited to half a CPU.
+const quotaScript = `mount -t tmpfs none /sys/fs/cgroup && mkdir -p /sys/fs/cgroup/cpu && echo "50000 100000" > /sys/fs/cgroup/cpu.max && echo 50000 > /sys/fs/cgroup/cpu/cpu.cfs_quota_us && echo 100000 > /sys/fs/cgroup/cpu/cpu.cfs_period_us`
+
+var (
+	quotaOnce sync.Once
+	quotaOK   bool
+)
+
+// quotaPossible: can this process create a mount namespace and mount a tmpfs in it (root, or CAP_SYS_ADMIN)? If not,
+// the chunks meant for it run like any other and the evidence says that the configuration was not exercised.
+func quotaPossible() bool {
+	quotaOnce.Do(func() {
+		if _, err := exec.LookPath("unshare"); err != nil {
+			return
+		}
+		quotaOK = exec.Command("unshare", "-m", "sh", "-c", quotaScript+" && test -r /sys/fs/cgroup/cpu.max").Run() == nil
+	})
+	return quotaOK
+}
+
 type death struct {
 	RunNote string // the run's NOTE line (kind of target), if it printed one before it died
 	Begin   proto.Begin
@@ -106,9 +130,15 @@ func runChildOnce(bin string, spec proto.Spec, timeout time.Duration) (ends []pr
 	cmd := exec.CommandContext(ctx, bin, "-test.run", "^TestChild$", "-test.timeout", "0")
 	if spec.OneCPU {
 		if ts, err := exec.LookPath("taskset"); err == nil {
-			cpu := spec.From % runtime.NumCPU()
+			// spread the pinned children over the processors (chunk starts are multiples of the chunk size, so
+			// "start mod processors" put every one of them on processor 0 or 8, where they queued behind each other
+			// until the watchdog ended them when two checks happened to run at once)
+			cpu := int(pinCounter.Add(1)+uint64(os.Getpid())) % runtime.NumCPU()
 			cmd = exec.CommandContext(ctx, ts, "-c", fmt.Sprint(cpu), bin, "-test.run", "^TestChild$", "-test.timeout", "0")
 		}
+	}
+	if spec.CPUQuota && quotaPossible() {
+		cmd = exec.CommandContext(ctx, "unshare", "-m", "sh", "-c", quotaScript+` && exec "$0" "$@"`, bin, "-test.run", "^TestChild$", "-test.timeout", "0")
 	}
 	cmd.Env = append(os.Environ(), "VERIF_SPEC="+string(sj), "GORACE=halt_on_error=1 exitcode=66 history_size=7", "GOMAXPROCS="+childGOMAXPROCS(spec))
 	var stderr tailBuffer
